@@ -494,6 +494,7 @@ func runPatchCaseOpt(c sink, name string, r *rand.Rand, st stats, star bool) {
 		}
 		pc.to = starTarget(r, dst)
 		pc.p.ToFieldPath = ptrTo(pc.to.s)
+		pc.p.Transforms = nil // nothing may fail before the value reaches the target path
 		pc.pred, pc.hasWildExpect = pFree, false
 		st.inc("patch_star_key_cases")
 	}
